@@ -56,6 +56,7 @@ class HostUpper:
 
     def data_received(self, d):
         self.rx.append(bytes(d))
+        self.mon.on_host_deliver(d)
         self.log.append((self.loop.time(), "host_rx", bytes(d).hex()))
 
     def reset_received(self, code):
@@ -128,9 +129,12 @@ def run(params, tape, detail=False):
 
     transport = SimTransport(loop, host_write, log=log)
 
+    mon.rxdiff = True
+
     def to_host(chunk):
         mon.on_host_read(chunk)
         transport.feed(chunk)
+        mon.rx_check()
 
     line.h2n.sink = ncp.feed
     line.n2h.sink = to_host
@@ -268,6 +272,8 @@ def run(params, tape, detail=False):
         probes[f"window_{K}"] = 1
     if loop.exceptions:
         probes["loop_exception"] = len(loop.exceptions)
+    if line.n2h.coalesced or line.h2n.coalesced:
+        probes["reads_spanning_frames"] = line.n2h.coalesced + line.h2n.coalesced
     fired = dict(plan.fired)
     nontrivial = any(not k.endswith(".deliver") for k in fired) or ncan or nexc
     sig = hashlib.blake2b(repr((K, line.trace, sorted((i, r[0]) for i, r in results.items()))).encode(), digest_size=8).digest()
